@@ -18,6 +18,7 @@ FdOps == {F("close", fd, 0, 0, <<>>) : fd \in {4, 5}} \cup
          {F("read", fd, n, 0, <<>>) : fd \in {4, 5}, n \in {1, 8}} \cup
          {F("pread", fd, 2, off, <<>>) : fd \in {4, 5}, off \in {0, 2}} \cup
          {F("seek", fd, wh, off, <<>>) : fd \in {4, 5}, wh \in {0, 1, 2}, off \in {-1, 0, 2}} \cup
+         {F("seek", 4, wh, 1, <<>>) : wh \in {3, 256, 257, 258, 65536}} \cup
          {F("setsize", fd, n, 0, <<>>) : fd \in {4, 5}, n \in {0, 1, 6}} \cup
          {F("fdsize", fd, 0, 0, <<>>) : fd \in {4, 5}} \cup
          {F("settimes", fd, 0, 0, <<>>) : fd \in {4, 5}} \cup {F("setappend", fd, 0, 0, <<>>) : fd \in {4, 5}}
